@@ -1,18 +1,29 @@
 /-
-Helper lemmas for C04 over RqModel/Model/SnapSM.lean: the chain invariant and its preservation.
+Helper lemmas for C04 over RqModel/Model/SnapSM.lean: the chain invariant and its preservation
+(code level 2 = current source).
 -/
 import RqModel.Model.SnapSM
 set_option linter.unusedSimpArgs false
 set_option linter.unusedVariables false
 namespace RqModel.SnapSM
 
-/-- `ChainInv s`: restoring the newest snapshot and replaying the log after it gives the applied
-database, and (unless a full snapshot is required anyway) the staged WAL segments are exactly the
-changes between the restored newest snapshot and the database file. -/
+/-- `ChainInv s`:
+* restoring the newest snapshot and replaying the log after it gives the applied database;
+* unless a full snapshot is due anyway (flag, or the modification-time guard), the staged WAL
+  segments are exactly the changes between the restored newest snapshot and the database file;
+* a captured-but-not-yet-persisted snapshot will, when installed, again satisfy both. -/
 structure ChainInv (s : SM) : Prop where
   restore : replay (resolve s.snaps) s.tail = some s.db
   resolves : (resolve s.snaps).isSome
-  staged : s.fullNeeded = false → s.snaps ≠ [] → s.staged.foldl applySeg (resolve s.snaps) = some s.file
+  staged : s.fullNeeded = false → s.modified = false → s.snaps ≠ [] →
+    s.staged.foldl applySeg (resolve s.snaps) = some s.file
+  pendFull : ∀ c n cm, s.pend = some (.full c n cm) →
+    s.fullNeeded = true ∧ n ≤ s.tail.length ∧ replay (some c) (s.tail.drop n) = some s.db ∧
+    s.staged = [] ∧ (s.modified = false → s.file = c)
+  pendInc : ∀ n cm, s.pend = some (.inc n cm) →
+    n ≤ s.tail.length ∧ s.snaps ≠ [] ∧
+    replay (s.staged.foldl applySeg (resolve s.snaps)) (s.tail.drop n) = some s.db ∧
+    (s.fullNeeded = false → s.modified = false ∧ s.staged.foldl applySeg (resolve s.snaps) = some s.file)
 
 def resolveStep (acc : Option C) (x : Snap) : Option C :=
   match x with
@@ -33,103 +44,209 @@ theorem foldl_applySeg_snoc (d : Option C) (l : List Seg) (g : Seg) :
     (l ++ [g]).foldl applySeg d = applySeg (l.foldl applySeg d) g := by
   rw [List.foldl_append]; rfl
 
-theorem chainInv_init : ChainInv {} := ⟨rfl, rfl, fun _ h => absurd rfl h⟩
+theorem drop_snoc {α} (l : List α) (a : α) (n : Nat) (h : n ≤ l.length) : (l ++ [a]).drop n = l.drop n ++ [a] := by
+  rw [List.drop_append_of_le_length h]
 
-theorem snoc_ne_nil {α} (l : List α) (a : α) : l ++ [a] ≠ [] := by simp
+theorem fileAfter_noLoad (r : C) (es : List Entry) (h : hasLoad es = false) : fileAfter r es = r := by
+  induction es generalizing r with
+  | nil => rfl
+  | cons e es ih =>
+    cases e with
+    | write w =>
+      simp only [hasLoad, List.any_cons, Bool.false_or] at h
+      simp only [fileAfter, List.foldl_cons]
+      exact ih r h
+    | load c => simp [hasLoad] at h
 
-/-- installing a full snapshot of the current database with an empty staging directory -/
-theorem chainInv_full_installed (s : SM) (c : C) (fn : Bool) (cmds ap) :
-    ChainInv { s with db := c, file := c, staged := [], snaps := s.snaps ++ [.full c], fullNeeded := fn, tail := [], cmds := cmds, applied := ap } where
+theorem chainInv_init : ChainInv {} :=
+  ⟨rfl, rfl, fun _ _ h => absurd rfl h, (fun _ _ _ h => by cases h), (fun _ _ h => by cases h)⟩
+
+/-- a full snapshot of the current database just installed, nothing staged, nothing pending -/
+theorem chainInv_full_installed (s : SM) (c : C) (fn md : Bool) (cmds ap) :
+    ChainInv { s with db := c, file := c, staged := [], snaps := s.snaps ++ [.full c], fullNeeded := fn, modified := md, pend := none, tail := [], cmds := cmds, applied := ap } where
   restore := by simp [resolve_snoc, resolveStep, replay]
   resolves := by simp [resolve_snoc, resolveStep]
-  staged _ _ := by simp [resolve_snoc, resolveStep]
+  staged _ _ _ := by simp [resolve_snoc, resolveStep]
+  pendFull _ _ _ h := by cases h
+  pendInc _ _ h := by cases h
 
-theorem snapshot_inv (s : SM) (h : ChainInv s) (o : Outcome) : ChainInv (snapshot true s o).1 := by
-  unfold snapshot
+/-- an applied entry -/
+theorem apply_inv (s : SM) (h : ChainInv s) (e : Entry) (d' : C) (f' : C) (fn md : Bool) (cm ap)
+    (hd : applyEntry (some s.db) e = some d')
+    (hkeep : (fn = s.fullNeeded ∧ md = s.modified ∧ f' = s.file) ∨ (fn = true ∧ md = true)) :
+    ChainInv { s with db := d', file := f', fullNeeded := fn, modified := md, tail := s.tail ++ [e], cmds := cm, applied := ap } := by
+  have hrep : ∀ (x : Option C) (n : Nat), n ≤ s.tail.length → replay x (s.tail.drop n) = some s.db →
+      replay x ((s.tail ++ [e]).drop n) = some d' := by
+    intro x n hn hx
+    rw [drop_snoc _ _ _ hn, replay_snoc, hx, hd]
+  refine ⟨?_, h.resolves, ?_, ?_, ?_⟩
+  · simp only [replay_snoc, h.restore, hd]
+  · intro hf hm hne
+    rcases hkeep with ⟨h1, h2, h3⟩ | ⟨h1, _⟩
+    · simp only at hf hm hne ⊢
+      rw [h3]; exact h.staged (h1 ▸ hf) (h2 ▸ hm) hne
+    · simp only at hf; rw [h1] at hf; cases hf
+  · intro c n cm' hp
+    obtain ⟨a1, a2, a3, a4, a5⟩ := h.pendFull c n cm' hp
+    refine ⟨?_, by simp only [List.length_append]; omega, hrep _ n a2 a3, a4, ?_⟩
+    · rcases hkeep with ⟨h1, _, _⟩ | ⟨h1, _⟩
+      · simp only; rw [h1]; exact a1
+      · exact h1
+    · intro hm
+      rcases hkeep with ⟨_, h2, h3⟩ | ⟨_, h2⟩
+      · simp only at hm ⊢; rw [h3]; exact a5 (h2 ▸ hm)
+      · simp only at hm; rw [h2] at hm; cases hm
+  · intro n cm' hp
+    obtain ⟨a1, a2, a3, a4⟩ := h.pendInc n cm' hp
+    refine ⟨by simp only [List.length_append]; omega, a2, hrep _ n a1 a3, ?_⟩
+    intro hf
+    rcases hkeep with ⟨h1, h2, h3⟩ | ⟨h1, _⟩
+    · simp only at hf ⊢
+      obtain ⟨b1, b2⟩ := a4 (h1 ▸ hf)
+      exact ⟨h2 ▸ b1, h3 ▸ b2⟩
+    · simp only at hf; rw [h1] at hf; cases hf
+
+theorem snapBegin_inv (s : SM) (h : ChainInv s) : ChainInv (snapBegin 2 s).1 := by
+  unfold snapBegin
   split
   · exact h
-  · split
-    · -- full path
-      rename_i hnot hdue
-      cases hse : s.staged.isEmpty with
-      | true =>
-        have hst : s.staged = [] := by simpa using hse
-        simp only [hse, Bool.not_true, Bool.and_false, Bool.false_eq_true, if_false]
-        cases o with
-        | ok =>
-          simp only
-          have := chainInv_full_installed s s.db false 0 s.applied
-          simpa [hst] using this
-        | notInvoked | failBefore | failAfter =>
-          simp only
-          refine ⟨h.restore, h.resolves, ?_⟩
-          intro hf hne
-          -- a full was due: either the flag was set or the store is empty
-          unfold fullDue at hdue
-          simp only [Bool.or_eq_true] at hdue
-          rcases hdue with hd | hd
-          · simp only at hf; rw [hf] at hd; cases hd
-          · simp only at hne
-            exact absurd (by simpa using hd) hne
-      | false =>
-        simp only [hse, Bool.not_false, Bool.and_true, Bool.true_and, if_true]
-        cases o with
-        | ok =>
-          simp only
-          exact chainInv_full_installed s s.db false 0 s.applied
-        | notInvoked | failBefore | failAfter =>
-          simp only
-          exact ⟨h.restore, h.resolves, fun hf => by cases hf⟩
-    · -- incremental path
-      rename_i hnot hdue
-      have hdue' : s.fullNeeded = false ∧ s.snaps ≠ [] := by
+  · rename_i hp
+    have hpn : s.pend = none := by
+      cases hs : s.pend with
+      | none => rfl
+      | some p => simp [hs] at hp
+    split
+    · -- full
+      simp only [ge_iff_le, Nat.le_refl, if_true]
+      refine ⟨h.restore, h.resolves, (fun hf => by cases hf), ?_, (fun _ _ hp' => by cases hp')⟩
+      intro c n cm hp'
+      simp only [Option.some.injEq, Pend.full.injEq] at hp'
+      obtain ⟨rfl, rfl, rfl⟩ := hp'
+      exact ⟨rfl, Nat.le_refl _, by simp [replay], rfl, fun _ => rfl⟩
+    · rename_i hdue
+      have hdue' : s.fullNeeded = false ∧ s.snaps ≠ [] ∧ s.modified = false := by
         unfold fullDue at hdue
         simp only [Bool.or_eq_true, not_or, Bool.not_eq_true] at hdue
-        exact ⟨hdue.1, by simpa using hdue.2⟩
-      have hst := h.staged hdue'.1 hdue'.2
+        exact ⟨hdue.1.1, by simpa using hdue.1.2, hdue.2⟩
+      have hst := h.staged hdue'.1 hdue'.2.2 hdue'.2.1
       split
       · exact h
       · have hnew : (s.staged ++ [(⟨s.file, s.db⟩ : Seg)]).foldl applySeg (resolve s.snaps) = some s.db := by
           rw [foldl_applySeg_snoc, hst]; simp [applySeg]
-        cases o with
-        | ok =>
-          simp only
-          refine ⟨?_, ?_, ?_⟩
-          · simp [resolve_snoc, resolveStep, hnew, replay]
-          · simp [resolve_snoc, resolveStep, hnew]
-          · intro _ _; simp [resolve_snoc, resolveStep, hnew]
-        | notInvoked => simp only; exact ⟨h.restore, h.resolves, fun _ _ => hnew⟩
-        | failBefore => simp only; exact ⟨h.restore, h.resolves, fun _ _ => hnew⟩
-        | failAfter => simp only; exact ⟨h.restore, h.resolves, fun hf => by cases hf⟩
+        refine ⟨h.restore, h.resolves, fun _ _ _ => hnew, (fun _ _ _ hp' => by cases hp'), ?_⟩
+        intro n cm hp'
+        simp only [Option.some.injEq, Pend.inc.injEq] at hp'
+        obtain ⟨rfl, rfl⟩ := hp'
+        exact ⟨Nat.le_refl _, hdue'.2.1, by simp [hnew, replay], fun _ => ⟨hdue'.2.2, hnew⟩⟩
 
-theorem step_inv (s : SM) (h : ChainInv s) (op : Op) : ChainInv (step true s op).1 := by
+theorem snapEnd_inv (s : SM) (h : ChainInv s) (o : Outcome) : ChainInv (snapEnd s o).1 := by
+  unfold snapEnd
+  cases hp : s.pend with
+  | none => exact h
+  | some p =>
+    cases p with
+    | full c n cm =>
+      obtain ⟨a1, a2, a3, a4, a5⟩ := h.pendFull c n cm hp
+      have keep : ChainInv { s with pend := none } :=
+        ⟨h.restore, h.resolves, (fun hf => by simp only at hf; rw [a1] at hf; cases hf),
+          (fun _ _ _ hp' => by cases hp'), (fun _ _ hp' => by cases hp')⟩
+      cases o with
+      | ok =>
+        simp only
+        refine ⟨?_, ?_, ?_, (fun _ _ _ hp' => by cases hp'), (fun _ _ hp' => by cases hp')⟩
+        · simp [resolve_snoc, resolveStep, a3]
+        · simp [resolve_snoc, resolveStep]
+        · intro _ hm _
+          simp only at hm ⊢
+          simp [resolve_snoc, resolveStep, a4, a5 hm]
+      | notInvoked => exact keep
+      | failBefore => exact keep
+      | failAfter => exact keep
+    | inc n cm =>
+      obtain ⟨a1, a2, a3, a4⟩ := h.pendInc n cm hp
+      have keep : ChainInv { s with pend := none } :=
+        ⟨h.restore, h.resolves, h.staged, (fun _ _ _ hp' => by cases hp'), (fun _ _ hp' => by cases hp')⟩
+      cases o with
+      | ok =>
+        simp only
+        cases hf : s.fullNeeded with
+        | true =>
+          simp only [if_true]
+          have : ({ s with pend := none } : SM) = { db := s.db, file := s.file, staged := s.staged, snaps := s.snaps, fullNeeded := true, modified := s.modified, pend := none, tail := s.tail, cmds := s.cmds, applied := s.applied } := by
+            rw [← hf]
+          rw [← this]; exact keep
+        | false =>
+          simp only [Bool.false_eq_true, if_false]
+          obtain ⟨b1, b2⟩ := a4 hf
+          refine ⟨?_, ?_, ?_, (fun _ _ _ hp' => by cases hp'), (fun _ _ hp' => by cases hp')⟩
+          · simp [resolve_snoc, resolveStep, a3]
+          · simp [resolve_snoc, resolveStep, b2]
+          · intro _ _ _
+            simp [resolve_snoc, resolveStep, b2]
+      | notInvoked => exact keep
+      | failBefore => exact keep
+      | failAfter =>
+        simp only
+        exact ⟨h.restore, h.resolves, (fun hf => by cases hf), (fun _ _ _ hp' => by cases hp'), (fun _ _ hp' => by cases hp')⟩
+
+theorem snapshot_inv (s : SM) (h : ChainInv s) (o : Outcome) : ChainInv (snapshot 2 s o).1 := by
+  unfold snapshot
+  split
+  · exact h
+  · have hb := snapBegin_inv s h
+    cases hsb : snapBegin 2 s with
+    | mk s1 k =>
+      rw [hsb] at hb
+      simp only
+      split
+      · have he := snapEnd_inv s1 hb o
+        cases hse : snapEnd s1 o with
+        | mk s2 r => rw [hse] at he; exact he
+      · exact hb
+
+theorem step_inv (s : SM) (h : ChainInv s) (op : Op) : ChainInv (step 2 s op).1 := by
   cases op with
   | write w =>
     simp only [step]
-    refine ⟨?_, h.resolves, h.staged⟩
-    simp [replay_snoc, h.restore, applyEntry]
-  | noop => exact ⟨h.restore, h.resolves, h.staged⟩
+    exact apply_inv s h (.write w) _ s.file s.fullNeeded s.modified _ _ rfl (Or.inl ⟨rfl, rfl, rfl⟩)
+  | noop =>
+    simp only [step]
+    exact ⟨h.restore, h.resolves, h.staged, h.pendFull, h.pendInc⟩
+  | snapBegin => exact snapBegin_inv s h
+  | snapEnd o => exact snapEnd_inv s h o
   | snapshot o => exact snapshot_inv s h o
   | load c =>
     simp only [step]
-    refine ⟨?_, h.resolves, fun hf => by cases hf⟩
-    simp [replay_snoc, h.restore, applyEntry]
+    exact apply_inv s h (.load c) c c true true _ _ rfl (Or.inr ⟨rfl, rfl⟩)
   | boot c =>
     simp only [step]
-    -- the swapped-in database with the full-needed flag set, then a persisted full snapshot
-    have hs : (snapshot true { s with db := c, file := c, fullNeeded := true, cmds := s.cmds + 1, applied := true } .ok).1
-        = { s with db := c, file := c, staged := [], snaps := s.snaps ++ [.full c], fullNeeded := false, tail := [], cmds := 0, applied := true } := by
-      simp only [snapshot, fullDue, Bool.true_or, if_true, Bool.not_true, Bool.and_false, Bool.false_eq_true, if_false]
-      cases hse : s.staged.isEmpty with
-      | true =>
-        have hst : s.staged = [] := by simpa using hse
-        simp [hst]
-      | false => simp
-    rw [hs]
-    exact chainInv_full_installed s c false 0 true
+    split
+    · exact h
+    · rename_i hp
+      have hpn : s.pend = none := by
+        cases hs : s.pend with
+        | none => rfl
+        | some p => simp [hs] at hp
+      -- swap, flag, then a full snapshot captured and installed at once
+      have hs : (snapshot 2 { s with db := c, file := c, fullNeeded := true, modified := true, cmds := s.cmds + 1, applied := true } .ok).1
+          = { s with db := c, file := c, staged := [], snaps := s.snaps ++ [.full c], fullNeeded := false, modified := false, pend := none, tail := s.tail.drop s.tail.length, cmds := s.cmds + 1 - (s.cmds + 1), applied := true } := by
+        simp [snapshot, snapBegin, snapEnd, fullDue, hpn]
+      rw [hs]
+      have := chainInv_full_installed s c false false (s.cmds + 1 - (s.cmds + 1)) true
+      simpa using this
   | install c =>
-    simp only [step, if_true]
-    exact chainInv_full_installed s c false 0 s.applied
+    simp only [step]
+    split
+    · exact h
+    · rename_i hp
+      have hpn : s.pend = none := by
+        cases hs : s.pend with
+        | none => rfl
+        | some p => simp [hs] at hp
+      have h21 : (2 : Nat) ≥ 1 := by decide
+      simp only [h21, if_true]
+      have := chainInv_full_installed s c false false 0 s.applied
+      simpa [hpn] using this
   | reap =>
     simp only [step]
     cases hr : resolve s.snaps with
@@ -137,18 +254,24 @@ theorem step_inv (s : SM) (h : ChainInv s) (op : Op) : ChainInv (step true s op)
     | some c =>
       simp only
       split
-      · refine ⟨?_, ?_, ?_⟩
-        · have := h.restore; rw [hr] at this; simpa [resolve] using this
-        · simp [resolve]
-        · intro hf _
-          rename_i hlen
-          have hne : s.snaps ≠ [] := by
-            intro e
-            have : s.snaps.length = 0 := by rw [e]; rfl
-            omega
-          have := h.staged hf hne
+      · rename_i hlen
+        have hne : s.snaps ≠ [] := by
+          intro e
+          have : s.snaps.length = 0 := by rw [e]; rfl
+          omega
+        have hres : resolve [Snap.full c] = some c := by simp [resolve]
+        refine ⟨?_, ?_, ?_, ?_, ?_⟩
+        · have := h.restore; rw [hr] at this; simpa [hres] using this
+        · simp [hres]
+        · intro hf hm _
+          have := h.staged hf hm hne
           rw [hr] at this
-          simpa [resolve] using this
+          simpa [hres] using this
+        · exact h.pendFull
+        · intro n cm hp
+          obtain ⟨a1, a2, a3, a4⟩ := h.pendInc n cm hp
+          rw [hr] at a3 a4
+          exact ⟨a1, by simp, by simpa [hres] using a3, by simpa [hres] using a4⟩
       · exact h
   | restart =>
     simp only [step]
@@ -158,11 +281,12 @@ theorem step_inv (s : SM) (h : ChainInv s) (op : Op) : ChainInv (step true s op)
       have hre := h.restore
       rw [hr] at hre
       simp only [hre]
-      refine ⟨by simpa [hr] using hre, by simp [hr], ?_⟩
-      intro _ _
-      simp [hr]
+      refine ⟨by simpa [hr] using hre, by simp [hr], ?_, (fun _ _ _ hp' => by cases hp'), (fun _ _ hp' => by cases hp')⟩
+      intro hf _ _
+      simp only [Bool.or_eq_false_iff] at hf
+      simp [hr, fileAfter_noLoad r s.tail hf.2]
 
-theorem run_inv (ops : List Op) : ∀ (s : SM), ChainInv s → ChainInv (run true s ops) := by
+theorem run_inv (ops : List Op) : ∀ (s : SM), ChainInv s → ChainInv (run 2 s ops) := by
   induction ops with
   | nil => intro s h; exact h
   | cons o os ih => intro s h; exact ih _ (step_inv s h o)
